@@ -1,11 +1,12 @@
 import SeqIoModel.Proofs.FastqStreamSearch
 import SeqIoModel.Proofs.Fill
+import SeqIoModel.Model.HistoryFq
 /-!
 # FASTQ stream proof, part 4: the invariant and the outcomes of a completed search
 -/
 
 namespace SeqIo.Fastq
-open SeqIo SeqIo.Spec SeqIo.WriteProofs SeqIo.FillProofs
+open SeqIo SeqIo.Spec SeqIo.WriteProofs SeqIo.FillProofs SeqIo.Fastq.Hist
 
 /-- what S's item looks like to the caller -/
 def obsOf : FqItem → Obs
@@ -38,51 +39,125 @@ theorem polGrows_doubleUntil (t : Nat) (ht : 1 ≤ t) : PolGrows (PolDesc.double
     Option.some_or, Option.getD_some]
   split <;> omega
 
-/-- window invariant: the buffer from `pos0` on, followed by the unread input, is the input
-from the start `r.byte` of the current group on -/
-structure Base (inp : List UInt8) (r : Reader) : Prop where
+/-- a policy that, asked with a capacity ≥ 1, answers more than it was passed or refuses -/
+def PolWf1 (p : Pol) : Prop :=
+  ∀ (h : List Nat) (cur n : Nat), 1 ≤ cur → p.f (h ++ [cur]) = some n → cur < n
+
+theorem PolGrows.wf1 {p : Pol} (h : PolGrows p) : PolWf1 p := by
+  intro hist cur n hc hn
+  obtain ⟨m, hm, hlt⟩ := h hist cur hc
+  rw [hm] at hn
+  cases hn
+  exact hlt
+
+theorem PolWf.wf1 {p : Pol} (h : PolWf p) : PolWf1 p := fun hist cur n _ hn => h hist cur n hn
+
+/-- window invariant, valid in every state: the buffer is the part of the input that ends at
+the cursor of the source; `r.byte` is the input offset of buffer offset `pos0`.
+`G` = "the policy never refuses" (a proposition the invariant carries along). -/
+structure Win (inp : List UInt8) (G : Prop) (r : Reader) : Prop where
   inp_eq : r.br.src.inp = inp
   cur_le : r.br.src.cursor ≤ inp.length
   nofail : NoFail r.br.src.script
-  polok : PolGrows r.pol
+  polwf : PolWf1 r.pol
+  polg : G → PolGrows r.pol
   cap3 : 3 ≤ r.br.cap
   len_le : r.br.buf.length ≤ r.br.cap
+  len_cur : r.br.buf.length ≤ r.br.src.cursor
+  full : inp.drop (r.br.src.cursor - r.br.buf.length) = r.br.buf ++ inp.drop r.br.src.cursor
+  byte_pos : r.byte + r.br.buf.length = r.br.src.cursor + r.bp.pos0
+
+/-- … and the current group starts inside the buffer (or at its end) -/
+structure Base (inp : List UInt8) (G : Prop) (r : Reader) : Prop where
+  toWin : Win inp G r
   pos0_le : r.bp.pos0 ≤ r.br.buf.length
-  win : inp.drop r.byte = r.br.buf.drop r.bp.pos0 ++ inp.drop r.br.src.cursor
-  byte_eq : r.byte + (r.br.buf.length - r.bp.pos0) = r.br.src.cursor
+
+theorem Base.inp_eq {inp G r} (h : Base inp G r) : r.br.src.inp = inp := h.toWin.inp_eq
+theorem Base.cur_le {inp G r} (h : Base inp G r) : r.br.src.cursor ≤ inp.length := h.toWin.cur_le
+theorem Base.nofail {inp G r} (h : Base inp G r) : NoFail r.br.src.script := h.toWin.nofail
+theorem Base.cap3 {inp G r} (h : Base inp G r) : 3 ≤ r.br.cap := h.toWin.cap3
+theorem Base.len_le {inp G r} (h : Base inp G r) : r.br.buf.length ≤ r.br.cap := h.toWin.len_le
+
+theorem Base.byte_eq {inp G r} (h : Base inp G r) :
+    r.byte + (r.br.buf.length - r.bp.pos0) = r.br.src.cursor := by
+  have := h.toWin.byte_pos; have := h.pos0_le; omega
+
+/-- the buffer from `pos0` on, followed by the unread input, is the input from `r.byte` on -/
+theorem Base.win {inp G r} (h : Base inp G r) :
+    inp.drop r.byte = r.br.buf.drop r.bp.pos0 ++ inp.drop r.br.src.cursor := by
+  have h1 := h.toWin.byte_pos
+  have h2 := h.pos0_le
+  have h3 := h.toWin.len_cur
+  have : r.byte = (r.br.src.cursor - r.br.buf.length) + r.bp.pos0 := by omega
+  rw [this, ← List.drop_drop, h.toWin.full, List.drop_append_of_le_length h2]
 
 /-- a buffer that is not full means that the input is exhausted -/
 def Eof (inp : List UInt8) (r : Reader) : Prop :=
   r.br.buf.length < r.br.cap → r.br.src.cursor = inp.length
 
-/-- the items S prescribes from the group starting at `r.byte` on -/
+/-- the items S prescribes from the group starting at `byte` (line `line`) on -/
 def itemsAt (inp : List UInt8) (byte line : Nat) : List FqItem :=
   fqGo false (splitLF (inp.drop byte)) byte line
 
-/-- reader states between `next` calls, with the items S still prescribes -/
-def Good (inp : List UInt8) (r : Reader) (items : List FqItem) : Prop :=
+/-- a pending incomplete search is consistent with the buffer -/
+def IpOk (r : Reader) : Prop := ∀ ip, r.incompletePos = some ip → Scan r.br.buf r.bp ip
+
+/-- reader states between API calls, with the items S prescribes for what lies ahead -/
+def Good (inp : List UInt8) (G : Prop) (r : Reader) (items : List FqItem) : Prop :=
   match r.state with
-  | .new => r.br.buf = [] ∧ r.br.src.cursor = 0 ∧ r.br.src.inp = inp ∧ r.bp.pos0 = 0 ∧
-      r.byte = 0 ∧ r.line = 1 ∧ r.incompletePos = none ∧ 3 ≤ r.br.cap ∧
-      NoFail r.br.src.script ∧ PolGrows r.pol ∧ items = itemsAt inp 0 1
-  | .finished => items = []
-  | .positioned => False
-  | .parsing => Base inp r ∧ Eof inp r ∧ r.incompletePos = none ∧
+  | .new => Win inp G r ∧ r.br.buf = [] ∧ r.br.src.cursor = 0 ∧ r.bp.pos0 = 0 ∧
+      r.byte = 0 ∧ r.line = 1 ∧ r.incompletePos = none ∧ items = itemsAt inp 0 1
+  | .finished => Win inp G r ∧ Eof inp r ∧ items = []
+  | .positioned => Base inp G r ∧ Eof inp r ∧ IpOk r ∧ items = itemsAt inp r.byte r.line
+  | .parsing => Base inp G r ∧ Eof inp r ∧ r.incompletePos = none ∧
       r.bp.pos0 ≤ r.bp.pos1 + 1 ∧ r.bp.pos1 + 1 ≤ r.br.buf.length ∧
       items = itemsAt inp (r.byte + (r.bp.pos1 + 1 - r.bp.pos0)) (r.line + 4)
 
-/-- one `next` call shows the first prescribed item (or `None` when there is none) and leaves
-a good state for the remaining ones -/
-def Outcome (inp : List UInt8) (items : List FqItem) (x : Reader × Res Bool) : Prop :=
-  ∃ items', Good inp x.1 items' ∧
-    ((items = [] ∧ items' = [] ∧ observe x.1 x.2 = .none) ∨
-     (∃ i, items = i :: items' ∧ observe x.1 x.2 = obsOf i))
+/-- a reader that has finished (it can only be revived by a seek) -/
+def Fin (inp : List UInt8) (G : Prop) (r : Reader) : Prop :=
+  r.state = .finished ∧ Win inp G r ∧ Eof inp r
 
-theorem Base.set_bp {inp : List UInt8} {r : Reader} (h : Base inp r) (bp' : BufPos)
+/-- the reader (in state `st`, or finished at the end of the input) shows the record `x` of S;
+`its'` are the items after it -/
+structure Shown (inp : List UInt8) (G : Prop) (st : State) (r : Reader) (x : FqRec)
+    (its' : List FqItem) : Prop where
+  win : Win inp G r
+  eof : Eof inp r
+  view : viewRec r.br.buf r.bp = some (recOf x)
+  line_eq : x.line = r.line
+  byte_eq : x.byte = r.byte
+  p01 : r.bp.pos0 ≤ r.bp.pos1 + 1
+  p1l : r.bp.pos1 ≤ r.br.buf.length
+  rest : (r.state = st ∧ r.incompletePos = none ∧ r.bp.pos1 + 1 ≤ r.br.buf.length ∧
+      its' = itemsAt inp (r.byte + (r.bp.pos1 + 1 - r.bp.pos0)) (r.line + 4)) ∨
+    (r.state = .finished ∧ its' = [])
+
+/-- the result of looking for the next record from a reader in state `st`: S's first item -/
+def Found (inp : List UInt8) (G : Prop) (st : State) (its : List FqItem)
+    (x : Reader × Res Bool) : Prop :=
+  (x.2 = .ok true ∧ ∃ rec its', its = .record rec :: its' ∧ Shown inp G st x.1 rec its') ∨
+  (x.2 = .ok false ∧ its = [] ∧ Fin inp G x.1) ∨
+  (∃ e b l, x.2 = .err (specErr e) ∧ its = [.err e b l] ∧ Fin inp G x.1) ∨
+  (x.2 = .err .bufferLimit ∧ ¬ G ∧ Fin inp G x.1)
+
+theorem Win.set_bp {inp G r} (h : Win inp G r) (bp' : BufPos)
     (ip' : Option RecordPos) (hp : bp'.pos0 = r.bp.pos0) :
-    Base inp { r with bp := bp', incompletePos := ip' } := by
-  obtain ⟨a, b, c, d, e, f, g, w, k⟩ := h
-  exact ⟨a, b, c, d, e, f, by simpa [hp] using g, by simpa [hp] using w, by simpa [hp] using k⟩
+    Win inp G { r with bp := bp', incompletePos := ip' } := by
+  obtain ⟨a, b, c, d, e, f, g, i, w, k⟩ := h
+  exact ⟨a, b, c, d, e, f, g, i, w, by simpa [hp] using k⟩
+
+theorem Base.set_bp {inp G r} (h : Base inp G r) (bp' : BufPos)
+    (ip' : Option RecordPos) (hp : bp'.pos0 = r.bp.pos0) :
+    Base inp G { r with bp := bp', incompletePos := ip' } :=
+  ⟨h.toWin.set_bp bp' ip' hp, by simpa [hp] using h.pos0_le⟩
+
+theorem Win.set_state {inp G r} (h : Win inp G r) (st : State) :
+    Win inp G { r with state := st } := by
+  obtain ⟨a, b, c, d, e, f, g, i, w, k⟩ := h
+  exact ⟨a, b, c, d, e, f, g, i, w, k⟩
+
+theorem Base.set_state {inp G r} (h : Base inp G r) (st : State) :
+    Base inp G { r with state := st } := ⟨h.toWin.set_state st, h.pos0_le⟩
 
 theorem wrapS_wrapV (x : Reader × Res Unit) :
     wrapS (wrapV x) = match x with
@@ -125,21 +200,28 @@ theorem Found4.lens {buf : List UInt8} {bp : BufPos} (h : Found4 buf bp) :
     piece_length buf _ _ (by omega), piece_length buf _ _ (by omega)]
   omega
 
+theorem viewRec_of_views {buf : List UInt8} {bp : BufPos} {x : FqRec}
+    (h1 : head buf bp = some x.head) (h2 : seq buf bp = some x.seq)
+    (h3 : qual buf bp = some x.qual) : viewRec buf bp = some (recOf x) := by
+  simp only [viewRec, h1, h2, h3, recOf]
+
 /-- all four lines are in the buffer: `validate` decides as S does -/
-theorem complete_outcome (inp : List UInt8) (r : Reader) (hb : Base inp r) (he : Eof inp r)
-    (hst : r.state = .parsing) (hip : r.incompletePos = none) (hf : Found4 r.br.buf r.bp) :
-    Outcome inp (itemsAt inp r.byte r.line) (validated r) := by
+theorem complete_found (inp : List UInt8) (G : Prop) (r : Reader) (hb : Base inp G r)
+    (he : Eof inp r) (hip : r.incompletePos = none) (hf : Found4 r.br.buf r.bp) :
+    Found inp G r.state (itemsAt inp r.byte r.line) (validated r) := by
   have hrec := hf.rec4
   have hsplit := hf.split (inp.drop r.br.src.cursor)
   have hlens := hf.lens
   have hv := validate_spec r hrec
   have h1 : r.bp.pos1 + 1 ≤ r.br.buf.length := (nl_some hf.2.2.2).2.1
   have hne := splitLF_ne_nil (r.br.buf.drop (r.bp.pos1 + 1) ++ inp.drop r.br.src.cursor)
+  have hp01 : r.bp.pos0 ≤ r.bp.pos1 + 1 := by
+    have := hrec.h1; have := hrec.h2; have := hrec.h3; have := hrec.h4
+    omega
   have hnext : inp.drop (r.byte + (r.bp.pos1 + 1 - r.bp.pos0)) =
       r.br.buf.drop (r.bp.pos1 + 1) ++ inp.drop r.br.src.cursor := by
     rw [← List.drop_drop, hb.win, List.drop_append_of_le_length (by simp; omega), List.drop_drop]
     congr 2
-    have := hrec.h1; have := hrec.h2; have := hrec.h3; have := hrec.h4
     omega
   unfold itemsAt
   rw [hb.win, hsplit, fqGo_four _ _ _ _ _ _ hne]
@@ -149,23 +231,17 @@ theorem complete_outcome (inp : List UInt8) (r : Reader) (hb : Base inp r) (he :
   | record x =>
     obtain ⟨v1, v2, v3, v4, v5, v6⟩ := hv
     simp only [validated, v1]
-    refine ⟨_, ?_, Or.inr ⟨_, rfl, ?_⟩⟩
-    · simp only [Good, hst]
-      refine ⟨hb, he, hip, ?_, h1, ?_⟩
-      · have := hrec.h1; have := hrec.h2; have := hrec.h3; have := hrec.h4
-        omega
-      · unfold itemsAt
-        rw [hnext]
-        congr 1
-        omega
-    · simp only [observe, v2, v3, v4, obsOf, v5, v6]
+    refine Or.inl ⟨rfl, x, _, rfl, ?_⟩
+    dsimp only
+    refine ⟨hb.toWin, he, viewRec_of_views v2 v3 v4, v6, v5, hp01, by omega, Or.inl ⟨rfl, hip, h1, ?_⟩⟩
+    unfold itemsAt
+    rw [hnext]
+    congr 1
+    omega
   | err e b l =>
     obtain ⟨v1, v2, v3⟩ := hv
     simp only [validated, v1]
-    refine ⟨[], ?_, Or.inr ⟨_, rfl, ?_⟩⟩
-    · simp only [Good]
-    · simp only [observe, obsOf]
-
+    exact Or.inr (Or.inr (Or.inl ⟨e, b, l, rfl, rfl, rfl, hb.toWin.set_state _, he⟩))
 
 /-! ## end of input -/
 
@@ -192,17 +268,20 @@ theorem checkEnd_qual (r : Reader) :
   rcases v with ⟨r', (_ | _ | _ | _)⟩ <;> rfl
 
 /-- three lines and an unterminated fourth one -/
-theorem eofq_outcome (inp : List UInt8) (r : Reader) (hb : Base inp r)
-    (hcur : r.br.src.cursor = inp.length) (hst : r.state = .finished)
+theorem eofq_found (inp : List UInt8) (G : Prop) (st : State) (r : Reader) (hb : Base inp G r)
+    (he : Eof inp r) (hcur : r.br.src.cursor = inp.length) (hst : r.state = .finished)
     (hsc : Scan r.br.buf r.bp .qual) :
-    Outcome inp (itemsAt inp r.byte r.line) (checkEnd r .qual) := by
+    Found inp G st (itemsAt inp r.byte r.line) (checkEnd r .qual) := by
   obtain ⟨⟨a, b, c⟩, d⟩ := hsc
   simp only [lastPos] at d
   have a' := nl_some a
   have b' := nl_some b
   have c' := nl_some c
   rw [checkEnd_qual]
-  generalize hr' : ({ r with bp := { r.bp with pos1 := r.br.buf.length } } : Reader) = r'
+  have hw' : Win inp G { r with bp := { r.bp with pos1 := r.br.buf.length } } :=
+    hb.toWin.set_bp _ r.incompletePos rfl
+  have he' : Eof inp { r with bp := { r.bp with pos1 := r.br.buf.length } } := he
+  generalize hr' : ({ r with bp := { r.bp with pos1 := r.br.buf.length } } : Reader) = r' at hw' he'
   have e1 : r'.br = r.br := by rw [← hr']
   have e2 : r'.bp = { r.bp with pos1 := r.br.buf.length } := by rw [← hr']
   have e3 : r'.byte = r.byte := by rw [← hr']
@@ -226,6 +305,7 @@ theorem eofq_outcome (inp : List UInt8) (r : Reader) (hb : Base inp r)
     rw [hb.win, hcur, List.drop_length, splitLF_nl_some [] a, splitLF_nl_some [] b,
       splitLF_nl_some [] c, List.append_nil, splitLF_nl_none d, hq, e1, e2]
     rfl
+  have hfin : Fin inp G r' := ⟨e5, hw', he'⟩
   unfold itemsAt
   rw [hsplit, fqGo_three, ← e3, ← e4, fqGroup_eof]
   generalize fqGroup false (hP r'.br.buf r'.bp) (sP r'.br.buf r'.bp) (pP r'.br.buf r'.bp)
@@ -236,19 +316,18 @@ theorem eofq_outcome (inp : List UInt8) (r : Reader) (hb : Base inp r)
     simp only [checkEndQ, v1, v3, v4, hge]
     by_cases hl : x.seq.length ≠ x.qual.length
     · rw [if_pos hl, if_pos hl]
-      refine ⟨[], ?_, Or.inr ⟨_, rfl, ?_⟩⟩
-      · simp only [Good, e5]
-      · simp only [observe, obsOf, specErr]
+      exact Or.inr (Or.inr (Or.inl ⟨_, _, _, rfl, rfl, hfin⟩))
     · rw [if_neg hl, if_neg hl]
-      refine ⟨[], ?_, Or.inr ⟨_, rfl, ?_⟩⟩
-      · simp only [Good, e5]
-      · simp only [observe, v2, v3, v4, obsOf, v5, v6]
+      refine Or.inl ⟨rfl, x, [], rfl, ?_⟩
+      dsimp only
+      refine ⟨hw', he', viewRec_of_views v2 v3 v4, v6, v5, ?_, ?_, Or.inr ⟨e5, rfl⟩⟩
+      · have := hrec.h1; have := hrec.h2; have := hrec.h3; have := hrec.h4
+        omega
+      · exact hrec.h5
   | err e b l =>
     obtain ⟨v1, v2, v3⟩ := hv
     simp only [checkEndQ, v1]
-    refine ⟨[], ?_, Or.inr ⟨_, rfl, ?_⟩⟩
-    · simp only [Good]
-    · simp only [observe, obsOf]
+    exact Or.inr (Or.inr (Or.inl ⟨e, b, l, rfl, rfl, rfl, hw'.set_state _, he'⟩))
 
 theorem checkEnd_few (r : Reader) (ip : RecordPos) (hne : ip ≠ .qual)
     (h0 : r.bp.pos0 ≤ r.br.buf.length) (ep : ErrPos)
@@ -260,12 +339,13 @@ theorem checkEnd_few (r : Reader) (ip : RecordPos) (hne : ip ≠ .qual)
   rfl
 
 /-- fewer than three complete lines -/
-theorem eof_few_outcome (inp : List UInt8) (r : Reader) (hb : Base inp r)
-    (hcur : r.br.src.cursor = inp.length) (hst : r.state = .finished)
+theorem eof_few_found (inp : List UInt8) (G : Prop) (st : State) (r : Reader) (hb : Base inp G r)
+    (he : Eof inp r) (hcur : r.br.src.cursor = inp.length) (hst : r.state = .finished)
     (ip : RecordPos) (hne : ip ≠ .qual) (hsc : Scan r.br.buf r.bp ip) :
-    Outcome inp (itemsAt inp r.byte r.line) (checkEnd r ip) := by
+    Found inp G st (itemsAt inp r.byte r.line) (checkEnd r ip) := by
   have hwin : inp.drop r.byte = r.br.buf.drop r.bp.pos0 := by
     rw [hb.win, hcur, List.drop_length, List.append_nil]
+  have hfin : Fin inp G r := ⟨hst, hb.toWin, he⟩
   -- the pieces and the error position in each case
   have key : ∃ ps ep, splitLF (r.br.buf.drop r.bp.pos0) = ps ∧ ps.length ≤ 3 ∧
       getErrorPos r ip.ord (decide (ip.ord > RecordPos.head.ord)) = some ep ∧
@@ -307,9 +387,9 @@ theorem eof_few_outcome (inp : List UInt8) (r : Reader) (hb : Base inp r)
   rw [hwin, hps, fqGo_few false ps hlen]
   by_cases hbl : ps.all blank = true
   · rw [if_pos hbl, if_pos hbl]
-    exact ⟨[], by simp only [Good, hst], Or.inl ⟨rfl, rfl, rfl⟩⟩
+    exact Or.inr (Or.inl ⟨rfl, rfl, hfin⟩)
   · rw [if_neg hbl, if_neg hbl]
-    refine ⟨[], by simp only [Good, hst], Or.inr ⟨_, rfl, ?_⟩⟩
-    simp only [observe, obsOf, specErr, hepv]
+    refine Or.inr (Or.inr (Or.inl ⟨_, _, _, ?_, rfl, hfin⟩))
+    simp only [specErr, hepv]
 
 end SeqIo.Fastq
